@@ -30,8 +30,12 @@ Rest(s) == IF s = <<>> THEN <<>> ELSE Tail(s)
 NoDup(s) == \A i, j \in DOMAIN s : i # j => s[i] # s[j]
 
 (* ---- actions as data *)
-ActCommit == [op |-> "commit", n |-> 0, keep |-> FALSE]
-ActUncommit(n, keep) == [op |-> "uncommit", n |-> n, keep |-> keep]
+\* tree = FALSE: uncommit(branch, tree=None) - the working tree (if any) is not told; refuse = TRUE: the master of a bound
+\* branch rejects the tip change (pre_change_branch_tip hook raising TipChangeRejected)
+ActCommit == [op |-> "commit", n |-> 0, keep |-> FALSE, tree |-> TRUE, refuse |-> FALSE]
+ActUncommit(n, keep) == [op |-> "uncommit", n |-> n, keep |-> keep, tree |-> TRUE, refuse |-> FALSE]
+ActUncommitNoTree(n, keep) == [op |-> "uncommit", n |-> n, keep |-> keep, tree |-> FALSE, refuse |-> FALSE]
+ActUncommitRefused(n, keep) == [op |-> "uncommit", n |-> n, keep |-> keep, tree |-> TRUE, refuse |-> TRUE]
 
 (* ---- state of the world as the spec keeps it *)
 St(P, tip, revno, wtp, tags, mtip, mrevno) ==
@@ -57,20 +61,24 @@ FilterRest(rest, heads, acc) ==
 FilterParents(P, ids) == IF ids = <<>> THEN <<>> ELSE FilterRest(Tail(ids), HeadsF(P, SeqRange(ids)), <<ids[1]>>)
 
 UncommitEnabled(s, n) == n >= 1 /\ n <= s.revno /\ n <= Len(LH(s.P, s.tip))
-UncommitStep(s, bound, n, keep) ==
+UncommitStepT(s, bound, n, keep, tree) ==
     LET lh == LH(s.P, s.tip)
         L == Len(lh)
         removed == [i \in 1..n |-> lh[L + 1 - i]]                         \* newest first
         newtip == IF L > n THEN lh[L - n] ELSE Null                        \* for/else: ran off the end -> null:
-        pm == Collect(s.P, removed, Rest(s.wtp))                           \* tree.get_parent_ids()[1:] first
-        parents == (IF newtip = Null THEN <<>> ELSE <<newtip>>) \o RevSeq(pm)
+        pm == Collect(s.P, removed, IF tree THEN Rest(s.wtp) ELSE <<>>)    \* tree.get_parent_ids()[1:] first
+        parents == (IF newtip = Null THEN <<>> ELSE <<newtip>>) \o (IF tree THEN RevSeq(pm) ELSE <<>>)
         ua == Anc(s.P, s.tip) \ AncOf(s.P, SeqRange(parents))              \* find_unique_ancestors(old_tip, parents)
-    IN [s EXCEPT !.tip = newtip, !.revno = s.revno - n, !.wtp = FilterParents(s.P, parents),
+    IN [s EXCEPT !.tip = newtip, !.revno = s.revno - n, !.wtp = IF tree THEN FilterParents(s.P, parents) ELSE @,
                  !.tags = IF keep THEN @ ELSE {t \in @ : t[2] \notin ua},
                  !.mtip = IF bound THEN newtip ELSE @, !.mrevno = IF bound THEN s.revno - n ELSE @]
 
-Step(s, bound, a) == IF a.op = "commit" THEN CommitStep(s, bound) ELSE UncommitStep(s, bound, a.n, a.keep)
-Enabled(s, a) == IF a.op = "commit" THEN CommitEnabled(s) ELSE UncommitEnabled(s, a.n)
+UncommitStep(s, bound, n, keep) == UncommitStepT(s, bound, n, keep, TRUE)
+\* the master is written first (master.set_last_revision_info): when it refuses, nothing has changed anywhere
+Step(s, bound, a) == IF a.op = "commit" THEN CommitStep(s, bound)
+                     ELSE IF a.refuse THEN s
+                     ELSE UncommitStepT(s, bound, a.n, a.keep, a.tree)
+Enabled(s, a) == IF a.op = "commit" THEN CommitEnabled(s) ELSE UncommitEnabled(s, a.n)        \* refuse: bound only (UncommitGen)
 RECURSIVE RunFrom(_, _, _, _)
 RunFrom(s, bound, acts, i) == IF i > Len(acts) THEN <<s>> ELSE <<s>> \o RunFrom(Step(s, bound, acts[i]), bound, acts, i + 1)
 Run(s, bound, acts) == RunFrom(s, bound, acts, 1)                          \* Len(acts) + 1 states
@@ -100,11 +108,12 @@ LawPending(G, pre, n, post) ==
           ELSE Pending(post) \subseteq S /\ HeadsF(G, Pending(post)) = HeadsF(G, S)
 \* "tags pointing only at removed revisions are dropped unless asked to keep them" - removed = UniqueAncestors(old tip,
 \* new parents); every other tag stays as it was
-Gone(G, pre, post) == Anc(G, pre.tip) \ AncOf(G, SeqRange(post.wtp) \cup {post.tip})
-LawTagsDropped(G, pre, keep, post) == keep \/ \A t \in post.tags : ~(t \in pre.tags /\ t[2] \in Gone(G, pre, post))
-LawTagsKept(G, pre, keep, post) ==
+\* without a working tree nothing is re-recorded: the removed region is everything the new tip does not reach
+Gone(G, pre, post, tree) == Anc(G, pre.tip) \ AncOf(G, (IF tree THEN SeqRange(post.wtp) ELSE {}) \cup {post.tip})
+LawTagsDropped(G, pre, keep, post, tree) == keep \/ \A t \in post.tags : ~(t \in pre.tags /\ t[2] \in Gone(G, pre, post, tree))
+LawTagsKept(G, pre, keep, post, tree) ==
     /\ post.tags \subseteq pre.tags
-    /\ \A t \in pre.tags : (keep \/ t[2] \notin Gone(G, pre, post)) => t \in post.tags
+    /\ \A t \in pre.tags : (keep \/ t[2] \notin Gone(G, pre, post, tree)) => t \in post.tags
 \* bound: the master follows
 LawMaster(bound, post) == bound => (post.mtip = post.tip /\ post.mrevno = post.revno)
 \* uncommit never touches the working files
@@ -119,11 +128,17 @@ UncommitLaw(name, G, bound, pre, a, post) ==
     CASE name = "tip" -> LawTip(G, pre, a.n, post)
       [] name = "revno" -> LawRevno(G, pre, a.n, post)
       [] name = "pending" -> LawPending(G, pre, a.n, post)
-      [] name = "tagsdropped" -> LawTagsDropped(G, pre, a.keep, post)
-      [] name = "tagskept" -> LawTagsKept(G, pre, a.keep, post)
+      [] name = "tagsdropped" -> LawTagsDropped(G, pre, a.keep, post, a.tree)
+      [] name = "tagskept" -> LawTagsKept(G, pre, a.keep, post, a.tree)
       [] name = "master" -> LawMaster(bound, post)
       [] name = "files" -> LawFiles(pre, post)
-UncommitFailed(G, bound, pre, a, post) == {nm \in UncommitLawNames : ~UncommitLaw(nm, G, bound, pre, a, post)}
+\* a bound uncommit that its master refuses undoes nothing: "uncommit undoes commit" in both branches or in neither
+LawRefused(pre, post) == post.tip = pre.tip /\ post.revno = pre.revno /\ post.mtip = pre.mtip /\ post.mrevno = pre.mrevno
+                         /\ post.mtip = post.tip
+NoTreeLawNames == {"tip", "revno", "tagsdropped", "tagskept", "master"}          \* the tree laws do not apply
+UncommitFailed(G, bound, pre, a, post) ==
+    IF a.refuse THEN (IF LawRefused(pre, post) THEN {} ELSE {"refused"})
+    ELSE {nm \in (IF a.tree THEN UncommitLawNames ELSE NoTreeLawNames) : ~UncommitLaw(nm, G, bound, pre, a, post)}
 
 (* A behaviour: obs[1] the initial observation, obs[i + 1] the observation after acts[i]; graphs[i] the graph before
    acts[i].  Failed laws of the whole behaviour (law names; "inverse" for Commit . Uncommit(1)). *)
@@ -131,7 +146,7 @@ BehaviourFailed(graphs, bound, acts, obs) ==
     UNION {IF acts[i].op = "uncommit" THEN UncommitFailed(graphs[i], bound, obs[i], acts[i], obs[i + 1]) ELSE {}
            : i \in DOMAIN acts}
     \cup (IF \E i \in DOMAIN acts : i > 1 /\ acts[i].op = "uncommit" /\ acts[i].n = 1 /\ acts[i - 1].op = "commit"
-                                    /\ ~LawInverse(obs[i - 1], obs[i + 1])
+                                    /\ acts[i].tree /\ ~acts[i].refuse /\ ~LawInverse(obs[i - 1], obs[i + 1])
           THEN {"inverse"} ELSE {})
 
 \* the transcription's states carry no working files: for judging the spec itself they never change
